@@ -2734,7 +2734,13 @@ impl Zeroconf {
         }
 
         for instance in resolved.drain() {
-            self.pending_resolves.remove(&instance);
+            // Resolved: its follow-up queries are over, the one still queued as well
+            // (it would go on as a second chain if the instance is found again soon).
+            if self.pending_resolves.remove(&instance) {
+                self.retransmissions.retain(
+                    |rerun| !matches!(&rerun.command, Command::Resolve(i, _) if *i == instance),
+                );
+            }
             self.resolved.insert(instance);
         }
 
@@ -3249,7 +3255,13 @@ impl Zeroconf {
         }
 
         for instance in resolved.drain() {
-            self.pending_resolves.remove(&instance);
+            // Resolved: its follow-up queries are over, the one still queued as well
+            // (it would go on as a second chain if the instance is found again soon).
+            if self.pending_resolves.remove(&instance) {
+                self.retransmissions.retain(
+                    |rerun| !matches!(&rerun.command, Command::Resolve(i, _) if *i == instance),
+                );
+            }
             self.resolved.insert(instance);
         }
 
